@@ -1,5 +1,5 @@
-(** C04 — asking for the mailbox by its own name reaches the same mailbox (net.ParseIP only assumed insensitive to letter case) *)
-From IV Require Import Base.Bytes Model.Addr Proofs.AddrFacts Proofs.AddrScan Proofs.AddrDomain Proofs.AddrNaming.
-Theorem name_fixed_point : forall (parse_ip : str -> bool), (forall s, parse_ip (lower s) = parse_ip s) -> forall mode a r, new_recipient parse_ip mode a = Some r -> extract_mailbox parse_ip mode (r_mailbox r) = Some (r_mailbox r).
-Proof. exact AddrNaming.name_fixed_point. Qed.
+(** C04 — asking for the mailbox by its own name reaches the same mailbox (literal parser modelled: no assumption on net.ParseIP) *)
+From IV Require Import Base.Bytes Model.Addr Model.IpLit Model.AddrU Proofs.AddrNaming Proofs.AddrGo Proofs.IpLit.
+Theorem name_fixed_point : forall mode a r, new_recipient go_parse_ip mode a = Some r -> extract_mailbox go_parse_ip mode (r_mailbox r) = Some (r_mailbox r).
+Proof. exact AddrGo.name_fixed_point_go. Qed.
 Print Assumptions name_fixed_point.
